@@ -60,6 +60,8 @@ def main():
         src, status, how = agggen.struct_program(rng.fork("agg%d" % i))
         expected_status[len(jobs)] = status
         jobs.append(("aggregate-literal:" + how.split(":")[0], "run", [("m.pn", src)]))
+    for i in range(1500 if thorough else 120):
+        jobs.append(("access-paths", "verify", [("m.pn", agggen.access_program(rng.fork("acc%d" % i))[0])]))
     # ill-typed programs: rejected on the unchanged tree; whatever a changed typer lets through must still be valid IR
     for src in agggen.illtyped_aggregates():
         jobs.append(("ill-typed-aggregate", "verify", [("m.pn", src)]))
